@@ -220,7 +220,9 @@ TXNS = [
 # 'date' values are ISO strings here and become date objects in the process (as load_supplemental_sources does);
 # one row keeps an unparseable date cell as a string, as the loader would
 ROWS = {'orders': [{'amount': 25.0, 'item': 'Dinner', 'date': '2025-01-07'}, {'amount': 12.0, 'item': 'Beans', 'date': '2025-02-01'},
-                   {'amount': 3.0, 'item': 'Later', 'date': 'Pending'}]}
+                   {'amount': 3.0, 'item': 'Later', 'date': 'Pending'},
+                   # a short line of the export: this row has no `item` column
+                   {'amount': 15.99, 'date': '2025-01-05'}]}
 
 # expressions built to collide in a mis-keyed cache
 EXPRS = [
